@@ -510,7 +510,16 @@ type UfSpec struct {
 	Pkg    string
 }
 
+type AxiomSpec struct {
+	Name string
+	Pkg  string
+	E    Expr
+	Text string
+	UF   string // emitted when this uninterpreted function is first used
+}
+
 type SpecDB struct {
+	Axioms     []*AxiomSpec
 	Structural []string               // sink functions: reaching one makes an exported function a structural entry point
 	LockExempt map[string]string      // entry points exempt from the lockfast rule, with the reason
 	Globals    map[string]*GhostField // ghost globals: name -> map[ref]V
@@ -648,6 +657,22 @@ func (db *SpecDB) loadFile(path, pkg string, tiny bool) error {
 			}
 			pp := &parser{toks: toks, src: hs}
 			db.Ufs[strings.TrimSpace(hs[:i])] = &UfSpec{Name: strings.TrimSpace(hs[:i]), Params: bs, Ret: pp.typeExpr(), Pkg: pkg}
+		case "axiom":
+			// axiom <uf-name>: <expr>   (definitional fact about an uninterpreted spec function, heap-independent)
+			full := head
+			for _, b := range it.body {
+				full += " " + b.text
+			}
+			rest := strings.TrimSpace(full[len("axiom"):])
+			i := strings.Index(rest, ":")
+			if i < 0 {
+				return fmt.Errorf("%s:%d: axiom uf: expr", path, it.headLine)
+			}
+			e, err := parseExpr(rest[i+1:])
+			if err != nil {
+				return fmt.Errorf("%s:%d: %v", path, it.headLine, err)
+			}
+			db.Axioms = append(db.Axioms, &AxiomSpec{Name: strings.TrimSpace(rest[:i]), UF: strings.TrimSpace(rest[:i]), Pkg: pkg, E: e, Text: rest})
 		case "structural":
 			full := head
 			for _, b := range it.body {
